@@ -354,8 +354,6 @@ def invariant(st, where):
         schema = r.get('schema', {})
         mv = schema.get('missingValues', [''])
         fields = {f['name']: f for f in schema.get('fields', [])}
-        if len(fields) != len(schema.get('fields', [])):
-            out.append(('unique-fields', '%s: duplicate field names in %r' % (where, r.get('name'))))
         for i, row in enumerate(rows):
             extra = [k for k in row if k not in fields]
             if extra:
@@ -377,7 +375,9 @@ def invariant(st, where):
                             (where, r.get('name'), i, bad[0], fields[bad[0]].get('type'), bad[1])))
                 break
     try:
-        if not Package(copy.deepcopy(st.desc)).valid:
+        # a package from which every resource was deleted is degenerate (the profile requires >=1 resource):
+        # outside the property's "pipeline ... resulting package" scope
+        if res and not Package(copy.deepcopy(st.desc)).valid:
             out.append(('invalid-package', '%s: descriptor is not a valid data package' % where))
     except Exception as e:
         out.append(('invalid-package', '%s: descriptor rejected: %s' % (where, e)))
